@@ -157,21 +157,30 @@ func hasMinMaxValidation(a *AttributeExpr) bool {
 // byLength generates a random size array of examples based on what's given.
 func byLength(a *AttributeExpr, r *ExampleGenerator) any {
 	count := NewLength(a, r)
-	switch a.Type.Kind() {
+	// The validation may have been inherited from an alias user type.
+	t := a.Type
+	for {
+		ut, ok := t.(UserType)
+		if !ok {
+			break
+		}
+		t = ut.Attribute().Type
+	}
+	switch t.Kind() {
 	case StringKind:
 		return r.Characters(count)
 	case BytesKind:
 		return []byte(r.Characters(count))
 	case MapKind:
 		raw := make(map[any]any)
-		m := a.Type.(*Map)
+		m := t.(*Map)
 		for i := 0; i < count; i++ {
 			raw[m.KeyType.Example(r)] = m.ElemType.Example(r)
 		}
 		return m.MakeMap(raw)
 	case ArrayKind:
 		raw := make([]any, count)
-		ar := a.Type.(*Array)
+		ar := t.(*Array)
 		for i := 0; i < count; i++ {
 			raw[i] = ar.ElemType.Example(r)
 		}
